@@ -81,6 +81,13 @@ def run(ctx: core.Ctx):
             ctx.violation(f"{op}.compute/result-aliased", {"op": op}, "the first result is unchanged by a later call", "modified", note="an earlier result array was overwritten by a later call of the same shape")
         elif again.shape != V.shape or not np.array_equal(again, V[::-1], equal_nan=True):
             ctx.violation(f"{op}.compute/formula/second-array-call", {"op": op}, "table (reversed)", "differs", note="a second array call of the same shape on the same object differs from the elementwise values")
+        # batches of length one keep their shape
+        for sh in ((1,), (1, 1)):
+            a1, b1 = np.full(sh, A[len(A) // 2]), np.full(sh, B[len(B) // 3])
+            r1 = np.asarray(objs[op].compute(a1, b1))
+            ctx.count(1)
+            if r1.shape != sh or not np.array_equal(r1.ravel(), [float(objs[op].compute(float(a1.ravel()[0]), float(b1.ravel()[0])))], equal_nan=True):
+                ctx.violation(f"{op}.compute/single-element-array", {"op": op, "shape": list(sh)}, list(sh), list(r1.shape))
         # the caller's own arrays, updated in place between two calls
         bufA, bufB = A.copy(), B.copy()
         objs[op].compute(bufA, bufB)
